@@ -205,6 +205,21 @@ func (ev *Evaler) registerDeprecation(d deprecation) bool {
 	return ev.deprecations.register(d)
 }
 
+// Returns the module with the given key, if it has been loaded.
+func (ev *Evaler) module(key string) (*Ns, bool) {
+	ev.mu.RLock()
+	defer ev.mu.RUnlock()
+	ns, ok := ev.modules[key]
+	return ns, ok
+}
+
+// Removes the module with the given key.
+func (ev *Evaler) deleteModule(key string) {
+	ev.mu.Lock()
+	defer ev.mu.Unlock()
+	delete(ev.modules, key)
+}
+
 // AddModule add an internal module so that it can be used with "use $name" from
 // script.
 func (ev *Evaler) AddModule(name string, mod *Ns) {
@@ -421,8 +436,8 @@ func (ev *Evaler) Check(src parse.Source, w io.Writer) (error, []string, error) 
 // errors. If w is not nil, deprecation messages are written to it.
 func (ev *Evaler) CheckTree(tree parse.Tree, w io.Writer) ([]string, error) {
 	ev.mu.RLock()
-	b, g, m := ev.builtin, ev.global, ev.modules
+	b, g, m := ev.builtin, ev.global, mapKeys(ev.modules)
 	ev.mu.RUnlock()
-	_, autofixes, compileErr := compile(b.static(), g.static(), mapKeys(m), tree, w)
+	_, autofixes, compileErr := compile(b.static(), g.static(), m, tree, w)
 	return autofixes, compileErr
 }
